@@ -49,6 +49,13 @@ func callScoped(e string) bool { return e == "transform" || e == "write" || e ==
 // acquire obtains the lock through entry point e and returns the release function.
 // For call-scoped entry points inside is run while the lock is held and release is nil.
 func acquire(path, e string, inside func()) (release func() error, err error) {
+	release, _, err = acquireFd(path, e, inside)
+	return release, err
+}
+
+// acquireFd is acquire that also reports the descriptor behind the returned handle (-1 when the entry point hides it).
+func acquireFd(path, e string, inside func()) (release func() error, fd int, err error) {
+	fd = -1
 	var f *lockedfile.File
 	switch e {
 	case "openfile-wronly":
@@ -72,26 +79,26 @@ func acquire(path, e string, inside func()) (release func() error, err error) {
 	case "mutex":
 		unlock, err := lockedfile.MutexAt(path).Lock()
 		if err != nil {
-			return nil, err
+			return nil, -1, err
 		}
-		return func() error { unlock(); return nil }, nil
+		return func() error { unlock(); return nil }, -1, nil
 	case "transform":
-		return nil, lockedfile.Transform(path, func(old []byte) ([]byte, error) {
+		return nil, -1, lockedfile.Transform(path, func(old []byte) ([]byte, error) {
 			inside()
 			return append(old[:len(old):len(old)], 'x'), nil
 		})
 	case "write":
-		return nil, lockedfile.Write(path, &hookReader{hook: inside, r: strings.NewReader("written\n")}, 0o666)
+		return nil, -1, lockedfile.Write(path, &hookReader{hook: inside, r: strings.NewReader("written\n")}, 0o666)
 	case "read":
 		_, err := lockedfile.Read(path)
-		return nil, err
+		return nil, -1, err
 	default:
-		return nil, fmt.Errorf("unknown entry %q", e)
+		return nil, -1, fmt.Errorf("unknown entry %q", e)
 	}
 	if err != nil {
-		return nil, err
+		return nil, -1, err
 	}
-	return f.Close, nil
+	return f.Close, int(f.Fd()), nil
 }
 
 type hookReader struct {
@@ -137,6 +144,9 @@ type mop struct {
 	Path   int    `json:"path"`
 	Entry  string `json:"entry,omitempty"`
 	Holder int    `json:"holder,omitempty"`
+	// Inherited: a copy of the holder's descriptor stays open elsewhere until the end of the case, as it does in a child
+	// process that inherited it (ExtraFiles, or the fork-to-exec window of any concurrent exec). Close must still release.
+	Inherited bool `json:"inherited,omitempty"`
 }
 type modelCase struct {
 	Ops []mop `json:"ops"`
@@ -219,7 +229,7 @@ func checkModel(c modelCase) *vt.Fail {
 			step := fmt.Sprintf("%d:acquire(p%d,%s)", i, o.Path, o.Entry)
 			trail = append(trail, step)
 			var insideFail *vt.Fail
-			rel, err := acquire(paths[o.Path], o.Entry, func() {
+			rel, fd, err := acquireFd(paths[o.Path], o.Entry, func() {
 				// call-scoped write entry: the lock must be held right now
 				ex, sh, perr := probe(paths[o.Path])
 				if perr == nil && (ex || sh) {
@@ -241,6 +251,14 @@ func checkModel(c modelCase) *vt.Fail {
 			}
 			if rel != nil {
 				holders = append(holders, &holder{o.Path, w, o.Entry, rel})
+				if o.Inherited && fd >= 0 {
+					if d, err := syscall.Dup(fd); err == nil {
+						syscall.CloseOnExec(d)
+						defer syscall.Close(d)
+						step += "+inherited"
+						trail[len(trail)-1] = step
+					}
+				}
 			}
 			if f := expect(step); f != nil {
 				return f
@@ -293,6 +311,7 @@ func genModel(t *rapid.T) modelCase {
 			o.Holder = rapid.IntRange(0, 7).Draw(t, "holder")
 		} else {
 			o.Op = "acquire"
+			o.Inherited = rapid.IntRange(0, 3).Draw(t, "inherited") == 0
 			if rapid.Bool().Draw(t, "w") {
 				o.Entry = rapid.SampledFrom(writeEntries).Draw(t, "wentry")
 			} else {
@@ -312,6 +331,9 @@ func TestLockStateModel(t *testing.T) {
 			if o.Op == "acquire" {
 				acq++
 				entries[o.Entry] = true
+				if o.Inherited && !callScoped(o.Entry) && o.Entry != "mutex" {
+					entries["descriptor-inherited"] = true
+				}
 			}
 		}
 		var cl []string
